@@ -39,7 +39,11 @@ class CtorRecorder(taps.Monitor):
 
     def post(self, ctx, st, args, kw, r, exc):
         if exc is None:
-            align.SHADOW[id(args[0])] = (args[0], st["opts"])
+            opts = dict(st["opts"])
+            src = args[1] if len(args) > 1 else kw.get("source")
+            if hasattr(args[0], "trilist") and taps.is_menpo(src):
+                opts["_source_arg"] = src.copy()       # piecewise-affine constructors derive their triangulation from the source they are given
+            align.SHADOW[id(args[0])] = (args[0], opts)
 
 
 class CopyPropagator(taps.Monitor):
@@ -67,7 +71,7 @@ class PinvPropagator(taps.Monitor):
 
     def post(self, ctx, st, args, kw, inv, exc):
         if exc is None and inv is not None and type(inv) is type(args[0]):
-            align.SHADOW[id(inv)] = (inv, align.SHADOW[id(args[0])][1])
+            align.SHADOW[id(inv)] = (inv, {k: v for k, v in align.SHADOW[id(args[0])][1].items() if k != "_source_arg"})
             UNRETARGETED_INVERSES.add(id(inv))
 
 
@@ -110,7 +114,7 @@ class SetTargetMonitor(taps.Monitor):
             ctx.notes.append("fresh rebuild failed: %r" % (e,))
             return
         scale = max(1.0, float(np.abs(new.points).max()))
-        opts = str(sorted(st["opts"].items(), key=str))
+        opts = str(sorted(((k, v) for k, v in st["opts"].items() if not k.startswith("_")), key=str))
         # first the query that was most likely evaluated last before the retarget (same input values as then)
         if tx.maxdiff(t.aligned_source().points, fresh.aligned_source().points) > 1e-7 * scale:
             ctx.fail("retargeted_alignment_has_another_aligned_source_than_a_fresh_one", cls=cls, mech=opts + ":first_query")
@@ -269,6 +273,15 @@ def w_history(ctx, rng, i):
         opts = {"kernel": type(kern).__name__, "msv": msv}
     elif warp:
         s, tg = tx.pwa_pair(rng)
+        if rng.random() < 0.4:
+            # a bare point cloud as source (the alignment triangulates it itself) and a mesh with its own, different
+            # triangle list as first target: later targets are plain point clouds
+            from scipy.spatial import Delaunay
+            own = Delaunay(tg.points).simplices.astype(np.int64)
+            own = own[rng.permutation(len(own))][:, rng.permutation(3)]
+            s = ms.PointCloud(s.points)
+            tg = ms.TriMesh(tg.points, trilist=own[: max(1, len(own) - int(rng.integers(0, 3)))])
+            opts = {"first_target": "trimesh_own_trilist"}
         t = (CachedPWA if kind == "PiecewiseAffine" else PythonPWA)(s, tg)
     else:
         n = int(rng.integers(d + 1, 14))
